@@ -45,13 +45,19 @@ def _eq_or_same(a, b, angle=False):
     return (G.eq_angle if angle else G.eq)(a, b)
 
 
-def f_getters(system):
+def f_getters(system, spacelike=False):
     d = len(system) + 1
 
     def fn(R):
-        v = R.vec(system, "1", momentum=True, offaxis=True)
+        v = R.vec(system, "1", momentum=True, offaxis=True, tau_nonneg=not spacelike)
+        if spacelike:
+            # negative stored mass: the spacelike vector with E^2 = p^2 - m^2 > 0 (documented convention)
+            _, st = lanes.stored(v)
+            sp = spec.decode(R.lib, system[:2], st[:3])
+            R.assume(st[3] < 0)
+            R.assume(sp[0] * sp[0] + sp[1] * sp[1] + sp[2] * sp[2] - st[3] * st[3] > 0)
         c = spec.cart(R.lib, v)
-        if d == 4:
+        if d == 4 and not spacelike:
             R.assume(c[3] > 0)
             R.assume(spec.tau2(R.lib, c) > 0)
         goals = []
@@ -202,6 +208,8 @@ def families(tier="quick"):
         for s in lanes.ALL_SYS[d]:
             n = lanes.sysname(s)
             add(f"getters/{n}", f_getters(s), [M + "PlanarMomentum", M + "SpatialMomentum", M + "LorentzMomentum"][: d - 1])
+            if d == 4 and s[-1] == "tau":
+                add(f"getters/{n}@spacelike", f_getters(s, spacelike=True), [M + "LorentzMomentum"])
             add(f"conversions/{n}", f_conversions(s), [M + "Vector.to_pxpy", M + "Vector.to_xy"])
             add(f"construct/{n}", f_construct(s), ["vector.backends.object.obj"])
             add(f"flavor-numbers/{n}", f_flavor_numbers(s), [M + "_flavor_of", "vector.backends.object.VectorObject2D._wrap_result"])
